@@ -55,7 +55,9 @@ def gen_plan(seed: int, tier: str) -> dict:
         "code": code,
         "mut": r.choice(MUT_KINDS),
         "mseed": r.randrange(10**9),
-        "acc_id": ":".join(f"{r.randrange(256):02X}" for _ in range(6)),
+        # the identifier is whatever the accessory says in M6: upper-case MAC form (the spec's), lower / mixed case, free-form
+        "acc_id": (lambda mac: r.choice([mac, mac, mac.lower(), mac[:8] + mac[8:].lower(), "Living Room Bridge %d" % r.randrange(100), "é-%d" % r.randrange(100)]))(
+            ":".join(f"{r.randrange(256):02X}" for _ in range(6))),
         "with_auth": r.random() < 0.3,
         "ops": [],
     }
